@@ -203,6 +203,12 @@ func init() {
 			for i := 0; i < nt; i++ {
 				out = append(out, drv.Scenario{Kind: "tear", Seed: seed, Params: mustJSON(c06TearSpec(rng, i)), TimeoutS: 90, Solo: true})
 			}
+			// more of them on fewer / more processors (own random source): the mixture is a genuine race, seen only when a
+			// Commit() reads the entry while an acknowledgement rewrites it
+			tr2 := rand.New(rand.NewSource(seed*101 + 31))
+			for i := 0; i < 2*nt; i++ {
+				out = append(out, drv.Scenario{Kind: "tear", Seed: seed, Params: mustJSON(c06TearSpec(tr2, i)), TimeoutS: 90, Solo: true, GoMaxProcs: []int{2, 4, 8, 16}[i%4]})
+			}
 			ills := []c06Ill{}
 			for _, m := range []string{"below", "above", "nomarker"} {
 				for _, k := range []string{"m", "d", "e", "s"} {
